@@ -197,6 +197,20 @@ func c04Shapes() []Shape {
 	add("global-read-then-modifying-call", Def("g", L(0)), Fn("bump", nil, []Type{TInt}, Set("g", Op("+", V("g"), N(1))), Ret(V("g"))),
 		Pr(V("g"), Call("bump"), V("g")), Def("x", Op("+", V("g"), Call("bump"))), Pr(V("x"), V("g")),
 		IfS(Op("<", V("g"), Call("bump")), Pr(S("less"))))
+	add("literal-operand-of-logical", IfElse(Op("||", T(), tb(1, F())), Blk{Pr(S("then"))}, Blk{Pr(S("else"))}), Def("x", Op("&&", F(), tb(2, T()))), Pr(V("x")),
+		IfChain([]Expr{tb(3, F()), Op("||", T(), tb(4, T()))}, []Blk{{Pr(S("first"))}, {Pr(S("second"))}}, Blk{Pr(S("third"))}),
+		Pr(Op("||", tb(5, F()), T()), Op("&&", tb(6, T()), F())), Pr(Op("&&", T(), tb(7, F())), Op("||", F(), tb(8, T()))),
+		Def("i", N(0)), ForC(Op("&&", Op("<", V("i"), N(2)), Op("||", T(), tb(9, F()))), Inc("i"), Pr(S("it"), V("i"))),
+		Pr(Op("==", Op("||", T(), tb(10, F())), T())), Pr(Op("+", N(0), ti(11, N(0)))), Pr(Op("*", N(0), ti(12, N(5)))), Pr(Op("+", S(""), ts(13, S("q")))))
+	add("loop-body-calls-function-with-loop",
+		Fn("drain", []ParamDecl{Pm("n", TInt)}, nil, ForC(Op(">", V("n"), N(0)), Pr(S("drain"), V("n")), Dec("n"))),
+		Fn("spin", nil, nil, Def("k", N(0)), ForEver(IfS(Op(">=", V("k"), N(2)), Break{}), Inc("k"))),
+		Fn("count", []ParamDecl{Pm("m", TInt)}, []Type{TInt}, Def("t", N(0)), For3(Def("j", N(0)), Op("<", V("j"), V("m")), Inc("j"), Set("t", Op("+", V("t"), V("j")))), Ret(V("t"))),
+		For3(Def("i", N(0)), tb(1, Op("<", V("i"), N(3))), Set("i", ti(2, Op("+", V("i"), N(1)))), Pr(S("body"), V("i")), IfS(Op("==", V("i"), N(1)), Do(Call("drain", N(2))))),
+		For3(Def("a", N(0)), tb(3, Op("<", V("a"), N(2))), Set("a", ti(4, Op("+", V("a"), N(1)))), Do(Call("spin")), Pr(S("after spin"), V("a"))),
+		For3(Def("b", N(0)), tb(5, Op("<", V("b"), N(2))), Set("b", ti(6, Op("+", V("b"), N(1)))), Pr(Call("count", N(3))),
+			For3(Def("c", N(0)), tb(7, Op("<", V("c"), N(2))), Set("c", ti(8, Op("+", V("c"), N(1)))), Do(Call("drain", N(1))))),
+		Def("w", N(0)), ForC(tb(9, Op("<", V("w"), N(2))), Do(Call("spin")), Inc("w"), Pr(S("w"), V("w"))))
 	add("panic-argument", IfS(tb(1, Op("<", L(0), L(1))), PanicS{X: ts(2, S("bye"))}), Pr(ti(3, N(0))))
 	add("condition-in-function", Fn("chk", []ParamDecl{Pm("a", TInt)}, []Type{TBool}, IfS(tb(1, Op("<", V("a"), L(0))), Ret(tb(2, T()))), Ret(tb(3, F()))), Pr(Call("chk", L(1))))
 	return sh
